@@ -74,17 +74,22 @@ MEM = ["jku", "jwk", "kid", "x5u", "x5c", "x5t", "x5t#S256", "typ", "cty", "crit
 K32 = ice.fake_key("oct32")
 
 
+def tenant_name(tenant_type):
+    """tenant_type 1/2: a fresh name registered as str / int; 3: the caller re-registers the BUILT-IN name "kid" (e.g. to make it required)"""
+    return "kid" if tenant_type == 3 else "tenant"
+
+
 def mk_registry(cls, strict, tenant_type, tenant_required, **kw):
     hr = None
     if tenant_type:
-        hr = {"tenant": HeaderParameter("Tenant", [STR, INT][tenant_type - 1], tenant_required)}
+        hr = {tenant_name(tenant_type): HeaderParameter("Tenant", [STR, INT, STR][tenant_type - 1], tenant_required)}
     return cls(header_registry=hr, strict_check_header=strict, **kw)
 
 
 def spec_registry(base, tenant_type):
     r = dict(base)
     if tenant_type:
-        r["tenant"] = [STR, INT][tenant_type - 1]
+        r[tenant_name(tenant_type)] = [STR, INT, STR][tenant_type - 1]
     return r
 
 
@@ -97,7 +102,7 @@ def _jws(kind, m_i, n, s, has_alg, strict, tenant_type, tenant_required, op, vr,
     if crit_i:
         hdr["crit"] = [["typ"], [name], ["alg", name], []][crit_i - 1]
     reg = mk_registry(JWSRegistry, strict, tenant_type, tenant_required, algorithms=["HS256"])
-    required = ["alg"] + (["tenant"] if tenant_type and tenant_required else [])
+    required = ["alg"] + ([tenant_name(tenant_type)] if tenant_type and tenant_required else [])
     want = acceptable(hdr, spec_registry(JWS_REG, tenant_type), required, strict, False)
     env = ice.Env(True, [vr])
     env.bind_b64(b"HDRSEG", b"HDRJSON")
@@ -153,11 +158,11 @@ def jws_url_member(m_i: int, s: str, strict: bool, op: int, vr: bool) -> bool:
 
 def jws_tenant(kind: int, n: int, s: str, present: bool, strict: bool, tenant_type: int, tenant_required: bool, op: int, vr: bool) -> bool:
     """
-    PRE: 0 <= kind < NK and len(s) <= 2 and -2 <= n <= 2 and 0 <= op <= 4 and 0 <= tenant_type <= 2
+    PRE: 0 <= kind < NK and len(s) <= 2 and -2 <= n <= 2 and 0 <= op <= 4 and 0 <= tenant_type <= 3
     POST: _
     """
     if present:
-        return _jws(kind, 11, n, s, True, strict, tenant_type, tenant_required, op, vr)
+        return _jws(kind, 2 if tenant_type == 3 else 11, n, s, True, strict, tenant_type, tenant_required, op, vr)
     return _jws(3, 7, n, "t", True, strict, tenant_type, tenant_required, op, vr)
 
 
@@ -169,27 +174,29 @@ def jws_crit(kind: int, m_i: int, n: int, s: str, crit_i: int, strict: bool, op:
     return _jws(kind, m_i, n, s, True, strict, 0, False, op, vr, crit_i)
 
 
-def b64_crit(b64_kind: int, n: int, s: str, crit_i: int, strict: bool, op: int, plain_registry: bool, vr: bool) -> bool:
+def b64_crit(b64_kind: int, n: int, s: str, crit_i: int, strict: bool, op: int, plain_registry: bool, caller_b64: bool, vr: bool) -> bool:
     """
     PRE: 0 <= b64_kind < NK and len(s) <= 2 and -2 <= n <= 2 and 0 <= crit_i <= 3 and 0 <= op <= 1
     PRE: not KNOWN_PLAIN_B64 or not plain_registry or strict
+    PRE: plain_registry or not caller_b64
     POST: _
     """
-    return _b64_crit(b64_kind, n, s, crit_i, strict, op, plain_registry, vr)
+    # caller_b64: the plain jws registry with "b64" registered by the caller (so that strict checking lets the name through)
+    return _b64_crit(b64_kind, n, s, crit_i, strict, op, plain_registry, vr, caller_b64)
 
 
 KNOWN_PLAIN_B64 = False
 
 
-def _b64_crit(b64_kind, n, s, crit_i, strict, op, plain_registry, vr):
+def _b64_crit(b64_kind, n, s, crit_i, strict, op, plain_registry, vr, caller_b64=False):
     rt.tick()
     hdr = {"alg": "HS256", "b64": val(b64_kind, n, s)}
     if crit_i:
         hdr["crit"] = [["b64"], ["alg"], []][crit_i - 1]
     regcls = JWSRegistry if plain_registry else B64Registry
-    reg = regcls(strict_check_header=strict, algorithms=["HS256"])
+    reg = regcls(strict_check_header=strict, algorithms=["HS256"], **({"header_registry": {"b64": HeaderParameter("b64", BOOL)}} if caller_b64 else {}))
     spec = dict(JWS_REG)
-    if not plain_registry:
+    if not plain_registry or caller_b64:
         spec["b64"] = BOOL
     want = acceptable(hdr, spec, ["alg"], strict, True)
     env = ice.Env(True, [vr])
@@ -260,7 +267,7 @@ def _jwe(alg_i, kind, m_i, present, n, s, strict, tenant_type, tenant_required, 
         hdr.pop(name, None)
     reg = mk_registry(JWERegistry, strict, tenant_type, tenant_required, algorithms=[alg, "A128GCM", "DEF"])
     spec = spec_registry({**JWE_REG, **MORE[alg]}, tenant_type)
-    required = ["alg", "enc"] + (MORE_REQUIRED[alg] if consume else []) + (["tenant"] if tenant_type and tenant_required else [])
+    required = ["alg", "enc"] + (MORE_REQUIRED[alg] if consume else []) + ([tenant_name(tenant_type)] if tenant_type and tenant_required else [])
     want = acceptable(hdr, spec, required, strict, False)
     if "zip" in hdr and hdr["zip"] != "DEF" and want is True:
         want = False                         # a well-typed but unknown zip name is an unsupported algorithm, not a header matter
@@ -296,10 +303,10 @@ def jwe_member(kind: int, alg_i: int, m_i: int, present: bool, n: int, s: str, s
 
 def jwe_tenant(kind: int, alg_i: int, present: bool, n: int, s: str, strict: bool, tenant_type: int, tenant_required: bool, consume: bool, v0: bool, v1: bool) -> bool:
     """
-    PRE: 0 <= alg_i < 5 and 0 <= kind < NK and len(s) <= 2 and -2 <= n <= 2 and 0 <= tenant_type <= 2
+    PRE: 0 <= alg_i < 5 and 0 <= kind < NK and len(s) <= 2 and -2 <= n <= 2 and 0 <= tenant_type <= 3
     POST: _
     """
-    return _jwe(alg_i, kind, 13, present, n, s, strict, tenant_type, tenant_required, consume, v0, v1)
+    return _jwe(alg_i, kind, JMEM.index("kid") if tenant_type == 3 else 13, present, n, s, strict, tenant_type, tenant_required, consume, v0, v1)
 
 
 def jwe_accepts_valid(alg_i: int, with_tenant: bool, tenant_type: int, strict: bool, consume: bool) -> bool:
@@ -409,15 +416,16 @@ def replay(func, call):
             kind, n, has_alg = 3, 0, True
         elif func == "jws_tenant":
             kind, n, s, present, strict, tenant_type, tenant_required, op, vr = args
-            m_i, has_alg = (11, True) if present else (7, True)
+            m_i, has_alg = ((2 if tenant_type == 3 else 11), True) if present else (7, True)
             if not present:
                 kind, s = 3, "t"
         elif func == "jws_crit":
             kind, m_i, n, s, crit_i, strict, op, vr = args
             has_alg = True
         else:
+            caller_b64 = False
             if func == "b64_crit":
-                b64_kind, n, s, crit_i, strict, op, plain, vr = args
+                b64_kind, n, s, crit_i, strict, op, plain, caller_b64, vr = args
             else:
                 b64_kind, n, s, crit_i, op, vr = args
                 strict, plain = False, True
@@ -434,14 +442,15 @@ def replay(func, call):
         jwk = R.test_key("oct32")
         key = JWKRegistry.import_key(jwk)
         if check_b64:
-            reg = (JWSRegistry if plain else B64Registry)(strict_check_header=strict, algorithms=["HS256"])
+            reg = (JWSRegistry if plain else B64Registry)(strict_check_header=strict, algorithms=["HS256"],
+                                                          **({"header_registry": {"b64": HeaderParameter("b64", BOOL)}} if caller_b64 else {}))
             spec = dict(JWS_REG)
-            if not plain:
+            if not plain or caller_b64:
                 spec["b64"] = BOOL
             want = acceptable(hdr, spec, ["alg"], strict, True)
         else:
             reg = mk_registry(JWSRegistry, strict, tenant_type, tenant_required, algorithms=["HS256"])
-            want = acceptable(hdr, spec_registry(JWS_REG, tenant_type), ["alg"] + (["tenant"] if tenant_type and tenant_required else []), strict, False)
+            want = acceptable(hdr, spec_registry(JWS_REG, tenant_type), ["alg"] + ([tenant_name(tenant_type)] if tenant_type and tenant_required else []), strict, False)
         hseg = R.b64e(json.dumps(hdr).encode())
         unenc = check_b64 and not plain and hdr.get("b64") is False
         pseg = "payload" if unenc else R.b64e(b"payload")
@@ -484,7 +493,7 @@ def replay(func, call):
             kind, alg_i, m_i, present, n, s, strict, consume, v0, v1 = args
         elif func == "jwe_tenant":
             kind, alg_i, present, n, s, strict, tenant_type, tenant_required, consume, v0, v1 = args
-            m_i = 13
+            m_i = JMEM.index("kid") if tenant_type == 3 else 13
         else:
             alg_i, with_tenant, tenant_type, strict, consume = args
             kind, m_i, present, n, s, v0, v1, tenant_required = (3 if tenant_type == 1 else 2), 13, with_tenant, 1, "t", True, True, True
@@ -504,7 +513,7 @@ def replay(func, call):
             hdr.pop(name, None)
         reg = mk_registry(JWERegistry, strict, tenant_type, tenant_required, algorithms=[alg, "A128GCM", "DEF"])
         spec = spec_registry({**JWE_REG, **MORE[alg]}, tenant_type)
-        required = ["alg", "enc"] + (MORE_REQUIRED[alg] if consume else []) + (["tenant"] if tenant_type and tenant_required else [])
+        required = ["alg", "enc"] + (MORE_REQUIRED[alg] if consume else []) + ([tenant_name(tenant_type)] if tenant_type and tenant_required else [])
         want = acceptable(hdr, spec, required, strict, False)
         if want is True and (("zip" in hdr and hdr["zip"] != "DEF") or hdr.get("enc") != "A128GCM"):
             want = False
